@@ -477,14 +477,14 @@ def first_diff(a, b):
 
 # ------------------------------------------------------------------ generate
 
-MARATHON_RATE = {"C01": 1.0 / 15000, "C02": 1.0 / 40000}
+MARATHON_RATE = {"C01": 1.0 / 15000, "C02": 1.0 / 40000, "C03": 1.0 / 60000}
 
 
 def generate(prop, rng, tier):
-    if prop == "C03":
-        return generate_c03(rng, tier)
     if tier == "thorough" and rng.random() < MARATHON_RATE[prop]:
         return generate_marathon(prop, rng)
+    if prop == "C03":
+        return generate_c03(rng, tier)
     min_len = 1 if prop == "C01" else 2
     sig = gen_signal(rng, min_len=min_len)
     n_rep = rng.choice([1, 2, 2, 3, 3, 4])
@@ -526,10 +526,10 @@ def generate(prop, rng, tier):
 # ------------------------------------------------------------------ execute C01 / C02
 
 def execute(prop, trace):
-    if prop == "C03":
-        return execute_c03(trace)
     if trace.get("marathon"):
         return execute_marathon(prop, trace)
+    if prop == "C03":
+        return execute_c03(trace)
     out = _execute(prop, trace)
     if out.violations and trace.get("scribble"):
         # Buffer re-use (a streaming reader with one pre-allocated buffer overwrites it after
@@ -885,11 +885,11 @@ def check_c02_spec(out, sig, log, spec_dtype=None):
 # the sample number in closed form, nothing is stored; all of pyLife's code runs as it is.
 
 def generate_marathon(prop, rng):
-    if prop == "C02":
+    if prop in ("C02", "C03"):
         return {"world": NAME, "marathon": {"kind": "long", "det": rng.choice(["fp", "fp", "tp"]),
                                             "log2_period": rng.choice([14, 15, 16]),
                                             "block": rng.choice([1 << 22, 3 << 20, (1 << 22) + 1]),
-                                            "total": (1 << 31) + rng.randint(1 << 20, 1 << 24)}}
+                                            "total": (1 << rng.choice([31, 31, 32])) + rng.randint(1 << 20, 1 << 24)}}
     return {"world": NAME, "marathon": {"kind": "dense", "det": rng.choice(["tp", "fp"]),
                                         "n_vib": (1 << 24) + (rng.randint(-3, 40) if rng.random() < 0.5 else 4 * rng.randint(0, 10)),
                                         "lo": float(rng.randint(-2, 0)), "hi": float(rng.randint(1, 3)),
@@ -925,7 +925,7 @@ def execute_marathon(prop, trace):
     det = m["det"]
     try:
         if m["kind"] == "long":
-            _marathon_long(out, log, m, det)
+            _marathon_long(out, log, m, det, prop)
         else:
             _marathon_dense(out, log, m, det)
     except RealCodeError as e:
@@ -934,7 +934,7 @@ def execute_marathon(prop, trace):
     return out
 
 
-def _marathon_long(out, log, m, det):
+def _marathon_long(out, log, m, det, prop="C02"):
     """f(i) = |(i mod P) - P/2| + (i div 2**22): a triangular wave whose mean creeps upwards.  Its turning
     points are known in closed form: maxima at multiples of P, minima half a period later."""
     P = 1 << int(m["log2_period"])
@@ -952,7 +952,7 @@ def _marathon_long(out, log, m, det):
         _feed(d, f(i).astype(np.float64))
         out.steps += 1
         a = b
-    out.count("probe:marathon_beyond_2e31_samples")
+    out.count("probe:marathon_beyond_%s_samples" % ("2e32" if total >= (1 << 32) else "2e31"))
     try:
         o = _arrays_of(d)
     except Exception as e:     # noqa
@@ -964,6 +964,32 @@ def _marathon_long(out, log, m, det):
         tp.append((k, float(f(np.int64(k)))))
         k += H
     tp.append((total - 1, float(f(np.int64(total - 1)))))
+    if prop == "C03":
+        # C03: the streamed signal is a refinement of its reversal sequence - what the same detector reports for the
+        # reversals alone, with the indices moved to where those samples sit in the stream, is what it must report
+        try:
+            dr = _mk(det, "full")
+            _feed(dr, np.array([v for _, v in tp], dtype=np.float64))
+            orv = _arrays_of(dr)
+        except RealCodeError:
+            raise
+        except Exception as e:     # noqa
+            raise RealCodeError("observe", e)
+        pos = [i for i, _ in tp]
+        want_c = list(zip(orv["from"].tolist(), orv["to"].tolist(), [pos[int(x)] for x in orv["ifrom"]], [pos[int(x)] for x in orv["ito"]]))
+        want_r = list(zip([pos[int(x)] for x in orv["ridx"]], orv["res"].tolist()))
+        got_c = list(zip(o["from"].tolist(), o["to"].tolist(), [int(x) for x in o["ifrom"]], [int(x) for x in o["ito"]]))
+        got_r = list(zip([int(x) for x in o["ridx"]], o["res"].tolist()))
+        log.add("long-c03", det, len(got_c), got_r)
+        out.count("probe:marathon_refinement_of_%s_samples" % ("2e32" if total >= (1 << 32) else "2e31"))
+        if got_c != want_c or got_r != want_r:
+            k_ = next((q for q in range(min(len(got_c), len(want_c))) if got_c[q] != want_c[q]), min(len(got_c), len(want_c)))
+            out.violate("T-mid", det + ":long-history",
+                        {"samples": total, "cycles_got": len(got_c), "cycles_want": len(want_c), "first_difference": k_,
+                         "got": got_c[k_] if k_ < len(got_c) else None, "want": want_c[k_] if k_ < len(want_c) else None,
+                         "got_residual": got_r[:8], "want_residual": want_r[:8],
+                         "signal": "f(i) = |(i mod %d) - %d| + (i div 2**22), against its reversals alone" % (P, H)})
+        return
     cyc, res = ref.four_point(tp)
     want = [(a_, b_, ia, ib) for a_, b_, ia, ib in cyc]
     got = list(zip(o["from"].tolist(), o["to"].tolist(), [int(x) for x in o["ifrom"]], [int(x) for x in o["ito"]]))
@@ -1222,6 +1248,7 @@ def execute_c03(trace):
             ff = bool(trace.get("final_flush"))
             _, o = one_piece(det, rec, sig, flush=ff)
             d2 = _mk(det, rec)
+            block_warning_bad = None
             with warnings.catch_warnings(record=True) as wl:
                 warnings.simplefilter("always")
                 m = len(twin_in)
@@ -1249,6 +1276,9 @@ def execute_c03(trace):
                                 out.count("fault:aborted_by_escalated_warning")
                             except Exception as e:     # noqa
                                 raise RealCodeError("process", e)
+                    n_warn_before = len(wl)
+                    has_nan = bool(np.isnan(np.asarray(blk, dtype=np.float64)).any())
+                    done = False
                     if not isinstance(twin_in, pd.Series) and trace.get("twin_mixed"):
                         # every block in the narrowest float that holds it exactly
                         with np.errstate(over="ignore", under="ignore", invalid="ignore"):
@@ -1256,9 +1286,12 @@ def execute_c03(trace):
                             if np.array_equal(b32.astype(np.float64), np.asarray(blk, dtype=np.float64), equal_nan=True):
                                 _feed(d2, b32, fl)
                                 out.count("container:block_float32")
-                                continue
-                        out.count("container:block_float64")
-                    if isinstance(twin_in, pd.Series):
+                                done = True
+                        if not done:
+                            out.count("container:block_float64")
+                    if done:
+                        pass
+                    elif isinstance(twin_in, pd.Series):
                         _feed(d2, twin_in.iloc[a_:b_], fl)
                     elif trace.get("reuse_buffer") and cuts:
                         buf = np.array(twin_in[a_:b_], dtype=np.float64)      # the reader's block buffer ...
@@ -1266,6 +1299,11 @@ def execute_c03(trace):
                         buf[:] = 1e30                                          # ... is refilled after the call
                     else:
                         _feed(d2, twin_in[a_:b_], fl)
+                    # every call that is handed NaN samples says that it drops them (a later call may repeat the
+                    # warning for NaNs still held in the carried tail: more than the property asks, never less)
+                    warned = any(issubclass(w_.category, UserWarning) and "NaN" in str(w_.message) for w_ in wl[n_warn_before:])
+                    if has_nan and not warned:
+                        block_warning_bad = {"block": [a_, b_], "block_has_nan": has_nan, "warned": warned}
                 if ff:
                     out.count("probe:final_flush")
             o2 = observe(d2, det, rec)
@@ -1273,6 +1311,9 @@ def execute_c03(trace):
             out.violate("exception", "%s/%s/%s" % (kind, det, e.where), {"type": e.exc_type, "msg": e.msg})
             continue
         log.add(det, o, o2)
+        if block_warning_bad:
+            out.violate("T-" + kind, det + ":warning-per-call", block_warning_bad)
+            continue
         if expect_warning:
             if not any(issubclass(w.category, UserWarning) and "NaN" in str(w.message) for w in wl):
                 out.violate("T-" + kind, det + ":warning", {"warnings": [str(w.message) for w in wl]})
